@@ -315,6 +315,9 @@ enum Batch {
     Random,
     /// deterministic adjacency-covering family: run j is member j (seed-independent)
     Cover,
+    /// (round 12) the same family on a one-core machine: only run for a program that asks how many
+    /// cores there are (seeded `m49`: the first listed entry is lost on a single core)
+    CoverOneCore,
 }
 
 fn make_mode(batch: Batch, seed: u64, gen: Gen, i: u64) -> world::Mode {
@@ -324,6 +327,14 @@ fn make_mode(batch: Batch, seed: u64, gen: Gen, i: u64) -> world::Mode {
             rng: rng::Rng::new(0),
             aux: rng::Rng::new(1),
             profile: world::Profile::cover(i as u32),
+        },
+        Batch::CoverOneCore => world::Mode::Random {
+            rng: rng::Rng::new(0),
+            aux: rng::Rng::new(1),
+            profile: world::Profile {
+                cover_cores: 1,
+                ..world::Profile::cover(i as u32)
+            },
         },
     }
 }
@@ -354,14 +365,18 @@ fn run_batch_of(ctx: &Arc<Ctx>, batch: Batch, gen: Gen, seed: u64, runs: u64, th
                         }
                         sim::set_label(Some(sim::RunLabel {
                             gen,
-                            batch: if batch == Batch::Cover { "cover" } else { "random" },
+                            batch: match batch {
+                                Batch::Cover => "cover",
+                                Batch::CoverOneCore => "cover1",
+                                Batch::Random => "random",
+                            },
                             seed,
                             run: i,
                         }));
                         let r = sim::execute(gen, &ctx.image, make_mode(batch, seed, gen, i), true, false);
                         sim::set_label(None);
                         let v = sim::judge(&r, &ctx.comp, &mut good);
-                        if batch == Batch::Cover {
+                        if batch != Batch::Random {
                             // measure what the family is for: ordered adjacencies actually produced
                             for (_p, names) in &r.dir_orders {
                                 for w in names.windows(2) {
@@ -1262,6 +1277,12 @@ fn cmd_check(a: &Args) -> i32 {
     let cover_runs = if a.opts.get("cover").map(|s| s.as_str()) == Some("off") { 0 } else { world::zigzag_family_size(n_dir) as u64 };
     let secs = |q: u64, t: u64| std::time::Duration::from_secs(opt_u64(a, "budget-s", if tier == "quick" { q } else { t }));
     let cvr = run_batch_of(&ctx, Batch::Cover, Gen::Layout, seed, cover_runs, threads, 64, secs(60, 600));
+    // a program that asks for the core count gets the family a second time, on a one-core machine
+    let cvr1 = if cvr.stats.cores_asked > 0 {
+        run_batch_of(&ctx, Batch::CoverOneCore, Gen::Layout, seed, cover_runs, threads, 64, secs(60, 600))
+    } else {
+        run_batch_of(&ctx, Batch::CoverOneCore, Gen::Layout, seed, 0, 1, 64, secs(1, 1))
+    };
     let lay = run_batch(&ctx, Gen::Layout, seed, layout_runs, threads, stride_layout, secs(150, 3000));
     let mut lik = run_batch(&ctx, Gen::Likely, seed, likely_runs, threads.min(likely_runs.max(1)), 1, secs(60, 600));
     // today's generate_likelysubtags meets no nondeterminism behind a seam (one file, no hash
@@ -1507,7 +1528,7 @@ fn cmd_check(a: &Args) -> i32 {
         }
     }
     let mut classes_done_global: BTreeSet<String> = BTreeSet::new();
-    for (batch, gen, cov) in [(Batch::Cover, Gen::Layout, &cvr), (Batch::Random, Gen::Layout, &lay), (Batch::Random, Gen::Likely, &lik)] {
+    for (batch, gen, cov) in [(Batch::Cover, Gen::Layout, &cvr), (Batch::CoverOneCore, Gen::Layout, &cvr1), (Batch::Random, Gen::Layout, &lay), (Batch::Random, Gen::Likely, &lik)] {
         let mut classes_done: BTreeSet<String> = BTreeSet::new();
         let mut failing: Vec<&(u64, Vec<Violation>)> = cov.failing.iter().collect();
         failing.sort_by_key(|f| f.0);
@@ -1647,7 +1668,7 @@ fn cmd_check(a: &Args) -> i32 {
         .zip(lay.pair_ba.iter())
         .filter(|(a, b)| **a && **b)
         .count();
-    let total_runs = lay.runs + lik.runs + cvr.runs + sess.iter().map(|(_, _, _, c)| c.runs).sum::<u64>();
+    let total_runs = lay.runs + lik.runs + cvr.runs + cvr1.runs + sess.iter().map(|(_, _, _, c)| c.runs).sum::<u64>();
     let distinct_nontrivial = {
         // distinct seam-level executions (event-log digests) other than the all-default schedule's
         let base_l = sim::execute(Gen::Layout, &ctx.image, sim::replay_mode(&[]), false, false).log_digest;
@@ -1678,6 +1699,8 @@ fn cmd_check(a: &Args) -> i32 {
             "adjacency_covering_family": {
                 "note": "deterministic, seed-independent batch: Walecki zigzag decomposition of K_n into Hamiltonian paths, each walked both ways, applied to the read_dir order and (over the keys in canonical order) to the iteration order of every HashMap/HashSet; guarantees every ordered pair (A immediately before B) and every entry first / last",
                 "runs": cvr.runs,
+                "runs_again_on_a_one_core_machine_only_for_programs_that_ask_for_the_core_count": cvr1.runs,
+                "failing_runs_on_a_one_core_machine": cvr1.failing_total,
                 "directory_entries": n_dir,
                 "ordered_adjacent_pairs_possible": n_dir * n_dir.saturating_sub(1),
                 "ordered_adjacent_pairs_seen_in_read_dir_orders": cvr.adj_dir.len(),
@@ -2153,7 +2176,11 @@ fn cmd_replay(a: &Args) -> i32 {
             let gen = Gen::parse(j["generator"].as_str().unwrap_or("")).unwrap_or_else(|| harness_error("replay file: bad generator"));
             let (seed, run) = (j["seed"].as_u64().unwrap_or(1), j["run"].as_u64().unwrap_or(0));
             let batch_name = j["batch"].as_str().unwrap_or("random").to_string();
-            let batch = if batch_name == "cover" { Batch::Cover } else { Batch::Random };
+            let batch = match batch_name.as_str() {
+                "cover" => Batch::Cover,
+                "cover1" => Batch::CoverOneCore,
+                _ => Batch::Random,
+            };
             let limit = std::time::Duration::from_secs(j["limit_s"].as_u64().unwrap_or(120)).min(run_time_limit(a));
             let (tx, rx) = std::sync::mpsc::channel();
             let img = image.clone();
@@ -2177,7 +2204,11 @@ fn cmd_replay(a: &Args) -> i32 {
                 Err(_) => vec![hang_violation(
                     &sim::RunLabel {
                         gen,
-                        batch: if batch == Batch::Cover { "cover" } else { "random" },
+                        batch: match batch {
+                            Batch::Cover => "cover",
+                            Batch::CoverOneCore => "cover1",
+                            Batch::Random => "random",
+                        },
                         seed,
                         run,
                     },
